@@ -3,6 +3,7 @@ import CoxeterVerif.Driver.OpsC03
 import CoxeterVerif.Driver.OpsC11
 import CoxeterVerif.Model.Mutable
 import CoxeterVerif.Model.Setters
+import CoxeterVerif.Model.SettersHeap
 
 namespace OpsC08
 open Setters Mut
@@ -84,6 +85,15 @@ def run (α : Type) [Scalar α] [Codec α] (op : String) (c : Ctx) : Option (Rd 
       -- in: <cpstate> ; out: the recomputed centroid (the harness compares it with the cached one)
       let s : CPState α ← OpsC03.rdState c
       pure (Out.v3 (CP.centroid s.tris s.volume))
+  | "setter.heap" => some do
+      -- in: class index, mutator (0 `_rescale` = every size setter, 1 centre setter)
+      -- out: the attribute paths of the class's arrays, then per attribute 0 keep | 1 in place | 2 re-bound to a fresh array
+      let i ← Rd.nat c
+      let cls ← nth Cls.all i
+      let m ← Rd.nat c
+      let mu := if m = 0 then SettersHeap.Mutator.rescale else SettersHeap.Mutator.setCentre
+      let kinds := (SettersHeap.pattern cls mu).map (fun k => (k.code : Int))
+      pure s!"{outStrs (SettersHeap.fieldNames cls)} {Out.ints kinds}"
   | "setter.ph" => some do
       let pi ← Rd.nat c
       let p ← nth P3Prop.all pi
